@@ -52,21 +52,21 @@ type ExpArgs struct {
 
 // Scenario is the explicit description of one run.
 type Scenario struct {
-	Mode       string    `json:"mode"`
-	Tempo      string    `json:"tempo"`       // fast | adaptive | cas
-	IntervalUs int64     `json:"interval_us"` // initial update interval of the oracle
-	SkewMs     int64     `json:"skew_ms"`     // PD clock - local clock
-	TickMs     int64     `json:"tick_ms"`     // granularity of PD's physical clock
-	Lat        string    `json:"lat"`         // narrow | wide | mixed | quant
-	FaultRate  float64   `json:"fault_rate"`  // share of TSO requests that fail (before or after the allocation)
-	YieldMaxUs int64     `json:"yield_max_us"`
-	Hooks      bool      `json:"hooks"` // install the yield hook when the library has it
+	Mode       string  `json:"mode"`
+	Tempo      string  `json:"tempo"`       // fast | adaptive | cas
+	IntervalUs int64   `json:"interval_us"` // initial update interval of the oracle
+	SkewMs     int64   `json:"skew_ms"`     // PD clock - local clock
+	TickMs     int64   `json:"tick_ms"`     // granularity of PD's physical clock
+	Lat        string  `json:"lat"`         // narrow | wide | mixed | quant
+	FaultRate  float64 `json:"fault_rate"`  // share of TSO requests that fail (before or after the allocation)
+	YieldMaxUs int64   `json:"yield_max_us"`
+	Hooks      bool    `json:"hooks"` // install the yield hook when the library has it
 	// ValScope is the scope string of every ValidateReadTS call of the run ("" and "global" are the same scope but
 	// different single-flight keys; one key per run keeps the single-flight goroutine unique, see world.gname).
-	ValScope string `json:"val_scope"`
-	Callers    []Caller  `json:"callers"`
-	ExpPool    []ExpArgs `json:"exp_pool,omitempty"`
-	TailMs     int64     `json:"tail_ms"`
+	ValScope string    `json:"val_scope"`
+	Callers  []Caller  `json:"callers"`
+	ExpPool  []ExpArgs `json:"exp_pool,omitempty"`
+	TailMs   int64     `json:"tail_ms"`
 }
 
 func pick[T any](r *rand.Rand, xs ...T) T { return xs[r.Intn(len(xs))] }
